@@ -25,7 +25,10 @@ def quotedText (tr : Text) : Bool :=
 
 /-- the value starts with one of the specifier prefixes that do not denote a registry version
     (`NON_REGISTRY_PREFIXES`, regenerated from the source) -/
-def nonRegistry (raw : Text) : Bool := Generated.nonRegistryPrefixes.any fun p => startsWith raw p.toList
+def nonRegistry (raw : Text) : Bool :=
+  (Generated.nonRegistryPrefixes.any fun p => startsWith raw p.toList) ||
+  -- `is_path_or_repository`: a slash outside an `npm:` alias is a path or a hosted git repository
+  (raw.any (· == '/') && !startsWith raw "npm:".toList)
 
 /-- `trim_start_matches([..])` / `trim_end_matches([..])` with a set of characters -/
 def trimStartChars (cs : List Char) : Text → Text
